@@ -26,9 +26,9 @@ def run(run, tier, seed, kinds=KINDS, pid=PID):
         res = explore.bfs(hc.make_expand(variant, kinds), depth, seed=seed,
                           bound={'variant': name, 'depth': depth})
         run.add_part('bfs:' + name, res)
-    if tier == 'thorough':
+    if True:
         # pure depth (no merging): every history, so nothing rests on the merge argument up to this depth
-        for name, depth in (('client', 5), ('late_registry', 6)):
+        for name, depth in ((('client', 5), ('late_registry', 6)) if tier == 'thorough' else (('client', 3), ('late_registry', 4))):
             res = explore.bfs(hc.make_expand(hc.VARIANTS[name], kinds), depth, seed=seed, merge=False,
                               bound={'variant': name, 'depth': depth, 'merged': False})
             run.add_part('bfs_unmerged:' + name, res)
